@@ -627,6 +627,8 @@ func wfRangeReq(o *ObjectRangeRequest) bool {
 //@ loop 2 invariant  trunc:  !truncated
 //@ loop 2 invariant  count:  cnt == len(result.Uploads) && cnt >= 0 && (cnt == 0 || cnt < limit)
 //@ loop 2 invariant  keys:   keysOK(bucketUploads)
+// the page resumes exactly at the upload the marker names (the only way round this loop is the goto after it was found)
+//@ loop 2 backstep [C14] found: firstFound && marker != nil && len(uploads) >= 1 && uploads[0] != nil && uploads[0].ID == marker.UploadID
 //@ loop 2 invariant  sound:  upListed(bucketUploads, result)
 //@ loop 2 invariant  ups:    all(j, 0, len(uploads), uploads[j] != nil && has(bucketUploads.uploads, uploads[j].ID) && bucketUploads.uploads[uploads[j].ID] == uploads[j] && uploads[j].Object == object)
 //@ loop 3 invariant  idx:    -1 <= rangeindex__1 && rangeindex__1 < len(uploads)
